@@ -41,7 +41,7 @@ def parseLine (l : String) : Line :=
   | "l" :: c :: gs => .allOf (natD c) (nats gs)
   | ["r", f, v] => .resolve (natD f) (natD v)
   | ["w", pid, f, dm] => .wait (natD pid) (natD f) (natD dm != 0)
-  | ["y", tag, pid, time, _, _] => .ydelay (natD tag) (natD pid) (natD time)
+  | ["y", tag, pid, time, _, _, _] => .ydelay (natD tag) (natD pid) (natD time)
   | ["R", clk, pid, val, tag] => .resume (natD clk) (natD pid) val (natD tag)
   | ["S", clk, _, _, _, _] => .deliv (natD clk)
   | ["K", clk, _, _, _, _] => .deliv (natD clk)
